@@ -244,6 +244,8 @@ def run(tier, seed):
     check_merge_cases(chk, mcases, profiles, full)
     traces, concrete = record_traces(3000 if full else 300, seed)
     validate_traces(chk, traces, concrete, seed)
+    from harness import algebra
+    algebra.run(chk, ['A1', 'A7'], full, seed)
     chk.exhaustive = True
     chk.assumptions = ['list.sort is stable (CPython guarantee), heapq.merge semantics of the stdlib',
                        'bounds: ExtSort tables <= %d rows over 3 key values; generated tables <= %d ragged rows'
